@@ -463,7 +463,25 @@ def universe_of(case):
     return sorted(u)
 
 
+CASE_LIMIT_S = 10          # a case normally takes well under a millisecond
+
+
+def _alarm(signum, frame):
+    raise core.HarnessTimeout("a container call did not return within %d s" % CASE_LIMIT_S)
+
+
 def run_impl(case):
+    import signal
+    old = signal.signal(signal.SIGALRM, _alarm)
+    signal.setitimer(signal.ITIMER_REAL, CASE_LIMIT_S)
+    try:
+        return _run_impl(case)
+    finally:
+        signal.setitimer(signal.ITIMER_REAL, 0)
+        signal.signal(signal.SIGALRM, old)
+
+
+def _run_impl(case):
     ex, dump, cons = KIND[case["kind"]]
     objs, out = [], ["ok"]
     uni = universe_of(case)
@@ -930,6 +948,10 @@ def gen_m(rng, n_ops, keys=MKEYS):
 def gen_s(rng, n_ops, keys=SKEYS):
     def klist(lo=0, hi=6): return sep(rng.choice(keys) for _ in range(rng.randrange(lo, hi + 1)))
     ops, n = [["new", klist()], ["new", klist()]], 2
+    if rng.random() < 0.25:
+        # the same elements in another order: equality between osets is ordered, against a list it is not
+        l = uniq(clist(ops[0][1])); rng.shuffle(l)
+        ops += [["new", sep(l)], ["eq", "0", "S2"], ["eq", "0", "L" + sep(l)]]; n = 3
     def oi(): return str(rng.randrange(n))
     def key(): return rng.choice(keys)
     def arg(): return "S" + oi() if rng.random() < 0.6 else "L" + klist(0, 5)
@@ -1054,7 +1076,8 @@ class CHECK(core.Check):
                   ["pop", "0", "0"], ["or", "0", "S1"], ["and", "0", "S1"], ["sub", "0", "S1"], ["xor", "0", "S1"],
                   ["and", "0", "Ld,c,c,a"], ["rsub", "0", "Ld,c,d"], ["ior", "0", "S1"], ["iand", "0", "S1"],
                   ["ixor", "0", "S1"], ["isub", "0", "S1"], ["ixor", "0", "S0"], ["isub", "0", "Lc,c"], ["eq", "0", "S1"],
-                  ["eq", "0", "Lc,b,a"], ["le", "0", "1"], ["clear", "0"], ["ior", "1", "S0"], ["ixor", "1", "La,a,e"]]
+                  ["eq", "0", "Lc,b,a"], ["le", "0", "1"], ["clear", "0"], ["ior", "1", "S0"], ["ixor", "1", "La,a,e"],
+                  ["new", "c,b,a"], ["eq", "0", "S2"]]
         for d in range(1, depth + 1):
             for seq in itertools.product(alphas, repeat=d):
                 yield {"kind": "s", "ops": pres + [list(x) for x in seq]}
